@@ -429,7 +429,7 @@ class App:
                 # resource middleware methods. Resource will also be
                 # None when a middleware method already set
                 # resp.complete to True.
-                if resource:
+                if resource is not None:
                     # Call process_resource middleware methods.
                     for process_resource in mw_rsrc_stack:
                         process_resource(req, resp, resource, params)
